@@ -26,6 +26,7 @@ ERet  == E.ev = "eret"    /\ Step(P!QERet(mon, E.m, E.ok, E.n, E.msg, E.len))
 EPan  == E.ev = "epanic"  /\ Step(P!QEPanic(mon, E.m))
 EHang == E.ev = "ehang"   /\ Step(P!QEHang(mon, E.m))
 WEnt  == E.ev = "wenter"  /\ Step(P!QWEnter(mon, E.m, E.tid))
+FC    == E.ev = "fcall"    /\ Step(P!QFCall(mon, E.tid))
 WOt   == E.ev = "wother"  /\ Step(P!QWOther(mon, E.tid))
 WLv   == E.ev = "wleave"  /\ Step(P!QWLeave(mon, E.m, E.o, E.msg))
 EH    == E.ev = "eh"      /\ Step(P!QEH(mon, E.msg, E.tid))
@@ -45,7 +46,7 @@ End   == E.ev = "end"       /\ Step(P!QEnd(mon, E.released, E.exited))
 \* hook points and harness notes carry no obligation for the monitor
 Skip  == E.ev \in {"hook", "note", "abandon", "step"} /\ Step(mon)
 
-Next == l <= Len(Rec) /\ (Reset \/ ECall \/ ERet \/ EPan \/ EHang \/ WEnt \/ WOt \/ WLv \/ EH \/ Cl \/ DB \/ DE \/ DH
+Next == l <= Len(Rec) /\ (Reset \/ ECall \/ ERet \/ EPan \/ EHang \/ WEnt \/ FC \/ WOt \/ WLv \/ EH \/ Cl \/ DB \/ DE \/ DH
                           \/ WD \/ SB \/ Sm \/ SP \/ Bk \/ Lat \/ DLat \/ Qu \/ End \/ Skip)
 Spec == Init /\ [][Next]_vars
 
